@@ -103,18 +103,38 @@ def isWitnessProgram (s : Bytes) : Bool :=
 
 /-! ### hash-type decoding (interpreter.cpp: `nHashType & 0x1f`, `nHashType & SIGHASH_ANYONECANPAY`) -/
 
+def SIGHASH_ALL : Nat := 1
 def SIGHASH_NONE : Nat := 2
 def SIGHASH_SINGLE : Nat := 3
+def SIGHASH_ANYONECANPAY : Nat := 0x80
 
 def isNone (ht : Nat) : Bool := ht % 32 = SIGHASH_NONE
 def isSingle (ht : Nat) : Bool := ht % 32 = SIGHASH_SINGLE
 /-- bit 0x80 -/
-def isAnyoneCanPay (ht : Nat) : Bool := (ht / 128) % 2 = 1
+def isAnyoneCanPay (ht : Nat) : Bool := (ht / SIGHASH_ANYONECANPAY) % 2 = 1
 
 /-- the historical constant `uint256::ONE` -/
 def hashOne : Bytes := 1 :: List.replicate 31 0
 
 def zero32 : Bytes := List.replicate 32 0
+
+/-- the constants of the library that the signature hashes depend on (T1 table; `Tables/Sighash.lean`
+    proves the values regenerated from the working tree equal `table`) -/
+structure SighashTable where
+  sighashAll : Nat
+  sighashNone : Nat
+  sighashSingle : Nat
+  sighashAnyoneCanPay : Nat
+  sigversionBase : Nat
+  sigversionWitnessV0 : Nat
+  opCodeSeparator : Nat
+  hashOne : List Nat
+deriving DecidableEq, Repr
+
+def table : SighashTable :=
+  { sighashAll := SIGHASH_ALL, sighashNone := SIGHASH_NONE, sighashSingle := SIGHASH_SINGLE,
+    sighashAnyoneCanPay := SIGHASH_ANYONECANPAY, sigversionBase := 0, sigversionWitnessV0 := 1,
+    opCodeSeparator := OP_CODESEPARATOR.toNat, hashOne := hashOne.map (·.toNat) }
 
 /-- Field ranges of the wire format, as far as the signature hashes read the transaction
     (no condition on the witness, and zero inputs are allowed — weaker than `Spec.Wire.WFTx`). -/
